@@ -9,23 +9,23 @@
 (*   LinkedControl    control hand-over between inputs and one output          *)
 (* This module only states the conjunction (for Node.tla); a module that uses  *)
 (* several convenience parameter kinds behaves as the interleaving.            *)
-CONSTANTS Members, Vals, HwMax,                 \* LinkedStruct
-          Tables, Shapes, Xs,                   \* LinkedFloatEnum
+CONSTANTS Members, Vals, HwMax, HwModes,                \* LinkedStruct
+          Tables, Shapes, Modes, Xs,                  \* LinkedFloatEnum
           Kinds, Lo, Hi, PVals, LVals, ForbSets,\* LinkedLimits
           Layouts                               \* LinkedControl
-VARIABLES shw, mem, str,
-          tab, shape, idx, fhw, fval, flast,
+VARIABLES hwmode, shw, mem, str, sok,
+          tab, shape, mode, idx, fhw, req, fval, flast,
           kind, forb, lo, hi, lval, llast,
           lay, active, cby, foreign
 
-S == INSTANCE LinkedStruct WITH hw <- shw
-F == INSTANCE LinkedFloatEnum WITH tab <- tab, shape <- shape, idx <- idx, hw <- fhw, val <- fval, last <- flast,
-                                Tables <- Tables, Shapes <- Shapes, Xs <- Xs
+S == INSTANCE LinkedStruct WITH hw <- shw, ok <- sok
+F == INSTANCE LinkedFloatEnum WITH tab <- tab, shape <- shape, mode <- mode, idx <- idx, hw <- fhw, req <- req,
+                                val <- fval, last <- flast, Tables <- Tables, Shapes <- Shapes, Modes <- Modes, Xs <- Xs
 L == INSTANCE LinkedLimits WITH val <- lval, last <- llast
 C == INSTANCE LinkedControl
 
-sv == <<shw, mem, str>>
-fv == <<tab, shape, idx, fhw, fval, flast>>
+sv == <<hwmode, shw, mem, str, sok>>
+fv == <<tab, shape, mode, idx, fhw, req, fval, flast>>
 lv == <<kind, forb, lo, hi, lval, llast>>
 cv == <<lay, active, cby, foreign>>
 
